@@ -85,7 +85,7 @@ func TestKVConcurrent(t *testing.T) {
 			start := lg.n + 1
 			lg.emit(map[string]any{"ev": "Reset", "backend": be.name, "round": round})
 			if round < in.HammerRounds {
-				runHammer(lg, st, keys, in.HammerBatches, in.HammerBatches)
+				runHammer(lg, st, keys, in.HammerBatches, 12*in.HammerBatches)
 			} else {
 				runRound(lg, st, keys, rand.New(rand.NewSource(seed*7919+int64(round))), in.WriterOps)
 			}
@@ -123,9 +123,13 @@ func runHammer(lg *tlog, st db.KeyValueStore, keys [][]byte, batches, maxReads i
 		}()
 		rep := &replayer{keys: keys, store: st}
 		for i := 0; i < batches; i++ {
-			ops := make([]op, len(keys))
-			for j := range ops {
-				ops[j] = op{Op: "put", K: j + 1, V: fmt.Sprintf("h%d", i)}
+			// several passes over all keys with ONE tag: a long batch widens the window in which a
+			// backend that applies the operations one by one (instead of atomically) can be observed
+			ops := make([]op, 0, 8*len(keys))
+			for pass := 0; pass < 8; pass++ {
+				for j := range keys {
+					ops = append(ops, op{Op: "put", K: j + 1, V: fmt.Sprintf("h%d", i)})
+				}
 			}
 			lg.emit(map[string]any{"ev": "WStart", "ops": ops})
 			b := st.NewBatch()
@@ -138,7 +142,7 @@ func runHammer(lg *tlog, st db.KeyValueStore, keys [][]byte, batches, maxReads i
 			lg.emit(map[string]any{"ev": "WEnd"})
 		}
 	}()
-	for rid := 1; rid <= 3; rid++ {
+	for rid := 1; rid <= 2; rid++ {
 		wg.Add(1)
 		go func(rid int) {
 			defer wg.Done()
